@@ -462,7 +462,9 @@ func tableAndColumnsPreferredWidths(context *layoutContext, box_ Box, outer bool
 	for _, rowGroup := range table.Children {
 		for _, row := range rowGroup.Box().Children {
 			for _, cell := range row.Box().Children {
-				gridWidth = utils.MaxInt(cell.Box().GridX+cell.Box().Colspan, gridWidth)
+				// (a cell fills its own slot at least: the fixed layout sets the span of
+				// the cells it finds beyond the grid to 0)
+				gridWidth = utils.MaxInt(cell.Box().GridX+utils.MaxInt(cell.Box().Colspan, 1), gridWidth)
 				gridHeight = utils.MaxInt(rowNumber+cell.Box().Rowspan, gridHeight)
 			}
 			rowNumber += 1
